@@ -47,7 +47,27 @@ def sample_ir(rng, nd, np_, nr):
     return sorted(rng.sample(pool, k) + rng.sample(ppool, kp))
 
 
+def do_replay(path):
+    """re-run the recorded case line on a freshly built driver; exit 1 if it still differs from the expectation"""
+    rp = json.load(open(path)).get('replay', {})
+    line = rp.get('case_line')
+    if not line:
+        print('replay file has no concrete input (obligation-level violation): see', path)
+        print(json.dumps(rp, indent=1)[:3000])
+        return 1
+    snap = snapshot_repo()
+    drv = build_driver(snap, 'raid_drv.c', RAID_SRCS, 'raid_drv')
+    out = run_lines(drv, [line], shards=1)[0]
+    exp = rp.get('expected')
+    print('case    :', line[:200], '...')
+    print('C now   :', out[:200])
+    print('expected:', (exp or rp.get('model') or '')[:200])
+    return 0 if (exp is None or out == exp) else 1
+
+
 def main(tier, replay=None):
+    if replay:
+        return do_replay(replay)
     chk = Check('C03', tier, 'proof')
     snap = snapshot_repo()
     regen(snap)
